@@ -2,9 +2,9 @@
    Only statements, closed by [exact lemma], with Print Assumptions beneath. *)
 From Coq Require Import String List NArith Bool.
 From J5V.lib Require Import Outcome.
-From J5V.model Require Import Conc ConcKey ConcSites ConcCorr ConcRace ConcStatement ConcState ConcRW ConcHB ConcProbe ConcCodec ConcProperty.
+From J5V.model Require Import Conc ConcKey ConcSites ConcCorr ConcRace ConcStatement ConcState ConcRW ConcHB ConcProbe ConcCodec ConcProperty ConcWalk.
 From J5V.gen Require ConcGen ConcStateGen.
-From J5V.proofs Require Import ConcProofs ConcLeafProofs ConcInvProofs ConcTermProofs ConcMainProofs ConcRetProofs ConcRaceProofs ConcFullProofs ConcKeyProofs ConcRWProofs ConcHBProofs ConcProbeProofs ConcCodecProofs ConcPropertyProofs.
+From J5V.proofs Require Import ConcProofs ConcLeafProofs ConcInvProofs ConcTermProofs ConcMainProofs ConcRetProofs ConcRaceProofs ConcFullProofs ConcKeyProofs ConcRWProofs ConcHBProofs ConcProbeProofs ConcCodecProofs ConcPropertyProofs ConcWalkProofs ConcKeyOwnProofs.
 Import ListNotations.
 Local Open Scope N_scope.
 
@@ -624,6 +624,52 @@ Example C10_guarded_encode_example :
   In (1%nat, 3, 2%nat) (rets Guarded 3 ex_w2_graph ex_w2_calls sched) /\
   encode_call ex_nm ex_denote ex_fmt ex_any 3 (heap (s_sh st)) 2%nat 3 ex_msg = Ok [123; 34; 114; 48; 34; 58; 123; 125; 125].
 Proof. exact guarded_encode_example. Qed.
+
+(* ---- the lock-free part of codec calls as accesses to shared cells (from the census) ------------- *)
+(* ConcWalk.walk_events t: what goroutine t's encode / decode / query-decode does outside Schema to cells
+   reachable from long-lived objects or package-level variables — the reads in lf_read_fields and every
+   write the census attributes to a lock-free function.  There is no synchronisation between the walks of
+   different goroutines, so a conflicting pair would be a data race (or, with atomics, per-call state
+   shared between calls).  On the regenerated census: none, for any two goroutines. *)
+Theorem C10_codec_walks_conflict_free : forall t1 t2 e1 e2,
+  In e1 (walk_events t1 ConcStateGen.lockfree_fns ConcStateGen.lf_read_fields ConcStateGen.state_writes) ->
+  In e2 (walk_events t2 ConcStateGen.lockfree_fns ConcStateGen.lf_read_fields ConcStateGen.state_writes) ->
+  ~ wconflict e1 e2.
+Proof. exact code_walks_conflict_free. Qed.
+Print Assumptions C10_codec_walks_conflict_free.
+
+(* with the row of a nesting counter kept on the shared Codec (seeded C10-F) two decodes in flight conflict *)
+Theorem C10_shared_counter_is_a_conflict :
+  lf_writes_nothing ConcStateGen.lockfree_fns shared_counter_writes = false /\
+  exists e1 e2,
+    In e1 (walk_events 0%nat ConcStateGen.lockfree_fns ConcStateGen.lf_read_fields shared_counter_writes) /\
+    In e2 (walk_events 1%nat ConcStateGen.lockfree_fns ConcStateGen.lf_read_fields shared_counter_writes) /\
+    wconflict e1 e2.
+Proof. exact shared_counter_conflicts. Qed.
+Print Assumptions C10_shared_counter_is_a_conflict.
+
+(* ---- what the claim check of /repo 0e6056c does guarantee on type sets with shared keys --------- *)
+(* With HitCheck (the treatment the regenerated tables show the code to have) a call for descriptor n is
+   never handed an object registered for ANOTHER descriptor — whatever the key function (collisions
+   included), the discipline, the schedule: either the call fails or the object is its own.  Serving what
+   is found (the code before 0e6056c) hands thread 1 of the witness the object of the other descriptor. *)
+Theorem C10_claim_never_hands_out_foreign_object : forall key d k g calls sched t n c,
+  In (t, n, c) (krets HitCheck key d k g calls sched) ->
+  src_is (heap (s_sh (krun HitCheck key d k g calls sched))) c n.
+Proof. exact claim_hands_out_own_object. Qed.
+Print Assumptions C10_claim_never_hands_out_foreign_object.
+
+Theorem C10_code_has_the_claim_check : code_hitpol = HitCheck.
+Proof. vm_compute. reflexivity. Qed.
+Print Assumptions C10_code_has_the_claim_check.
+
+Example C10_serve_hands_out_foreign_object :
+  let key := key_of [(3, 2)] in
+  let g := [(1, []); (2, [4]); (3, []); (4, [])] in
+  let sched := (repeat 0 8 ++ repeat 1 3)%nat in
+  In (1%nat, 3, 0%nat) (krets HitServe key Guarded 3 g [[2]; [3]] sched) /\
+  src_is (heap (s_sh (krun HitServe key Guarded 3 g [[2]; [3]] sched))) 0%nat 2.
+Proof. exact serve_hands_out_foreign_object. Qed.
 
 (* ---- the property as a whole ------------------------------------------------------------------ *)
 (* ConcProperty.C10_property pol d: "each call returns what it returns alone" over EVERY key function (type
